@@ -3039,12 +3039,14 @@ PPL::Grid::wrap_assign(const Variables_Set& vars,
             return;
           }
           PPL_ASSERT(o == OVERFLOW_WRAPS);
-          // The value v_n for `x' is wrapped modulo the 'wrap_frequency'.
+          // The value v_n for `x' is wrapped modulo the 'wrap_frequency'
+          // into the range [min_value, max_value] of the bounded type.
+          v_n -= min_value;
           v_n %= wrap_frequency;
-          // `v_n' is the value closest to 0 and may be negative.
-          if (r == UNSIGNED && v_n < 0) {
+          if (v_n < 0) {
             v_n += wrap_frequency;
           }
+          v_n += min_value;
           unconstrain(x);
           add_constraint(x == v_n);
         }
